@@ -78,6 +78,12 @@ func runC20(c *Ctx, r *Report) {
 	r.Doc("R-C20.9", "the keystore and the identity code examine every error result before going on: a failed datastore write, key decode or signature is never followed by a cached key or a returned identity")
 	r.Doc("R-C20.14", "the keystore writes to the datastore it was given, directly (a write-behind wrapper keeps keys where no other keystore over the same datastore sees them)")
 	constructorKeepsArgument(c, r, "R-C20.14", "keystore", "NewKeystore", "Keystore", "store", "keys created through this keystore are not in the datastore when another keystore over it (or this one after a restart) looks for them: the key is reported absent and a second, different identity is created for the same id")
+	r.Doc("R-C20.15", "every setter of the clock stores its argument in the field its getter returns (adopted from C08: a SetID that writes into the previous id's storage overwrites the identity's published key, which every clock of the log shares)")
+	importRules(c, r, "C08", []string{"R-C08.8"}, "R-C20.15")
+	r.Doc("R-C20.16", "bytes handed out by the datastore are only read: the serialized key the keystore gets from the store is the store's own buffer for the in-memory stores — wiping or editing it in place destroys the stored key for every other keystore over that datastore")
+	sharedSlicesReadOnlyIn(c, r, "R-C20.16", func(f *types.Func) bool {
+		return f.Pkg() != nil && strings.Contains(f.Pkg().Path(), "go-datastore") && f.Name() == "Get"
+	}, func(fn *Fn) bool { return inPkgs(c.P, fn, "keystore") }, 0, 1)
 	errDiscipline(c, r, "R-C20.9", func(fn *Fn) bool { return inPkgs(c.P, fn, "keystore", "identityprovider") },
 		"a key or identity is handed out although creating, storing, decoding or signing it failed — another keystore over the same datastore then sees a different (or no) key for the id", deliberateDiscards)
 
